@@ -842,6 +842,12 @@ class FillNode(BaseNode):
             if "forloop" in layer:
                 layer = layer.copy()
                 layer["forloop"] = layer["forloop"].copy()
+                # Also copy the state of the parent loops, as Django mutates them while the loops go on,
+                # and the fill may be rendered only after that.
+                curr_forloop = layer["forloop"]
+                while curr_forloop.get("parentloop"):
+                    curr_forloop["parentloop"] = curr_forloop["parentloop"].copy()
+                    curr_forloop = curr_forloop["parentloop"]
                 data.extra_context.update(layer)
 
         collected_fills.append(data)
